@@ -13,6 +13,34 @@ constexpr bool post_sqrt_hyp(fixed_t x, fixed_t r) { return r.v >= 0 && r.v < (1
 constexpr bool pre_c14_sqrtb(fixed_t x, fixed_t r) { return pre_sqrt_hyp(x) && post_sqrt_1ulp(x, r); }
 constexpr bool lem_c14_sqrt_bound(fixed_t x, fixed_t r) { return post_sqrt_hyp(x, r); }
 constexpr bool post_hypot(fixed_t a, fixed_t b, fixed_t r) { return r.v >= 0 && vf_finite(r) && ((a.v == 0 && b.v == 0) == (r.v == 0) || r.v == 0); }
+// accuracy clause, exactly, in integers.  In raw units the real hypotenuse is T = sqrt(S), S = a.v^2 + b.v^2 (< 2^95), so
+//   |h - T| <= 2            <=>  (h <= 2 or (h-2)^2 <= S) and S <= (h+2)^2
+//   |h - T| <= 1.5e-4 * T   <=>  19997^2 * S <= (20000 h)^2 <= 20003^2 * S          (1.5e-4 == 3/20000; all products < 2^125)
+// no real function is needed.  The accuracy units take 0 <= b <= a (hypot(a,b) == hypot(b,a) == hypot(|a|,|b|) is proved separately, and S is
+// symmetric and even too) and a slice selector L, the bit length of a.v: it fixes every shift distance in hypot.
+constexpr bool pre_c14_acc(fixed_t a, fixed_t b, int L)
+  { if( !pre_c14(a, b) || b.v < 0 || a.v < b.v ) return false;      // 0 <= b <= a: the general case follows by the symmetry lemma (c14.symmetry.cut)
+    return L == 0 ? a.v == 0 : (a.v >> (L - 1)) == 1; }
+constexpr bool vf_hypot_small(fixed_t a, fixed_t b) { return a.v > -(1l << 30) && a.v < (1l << 30) && b.v > -(1l << 30) && b.v < (1l << 30); }
+// h is not too small: T - h <= 2 resp. <= 1.5e-4 T
+constexpr bool post_hypot_acc_lo(fixed_t a, fixed_t b, fixed_t h)
+  { if( h.v < 0 || h.v >= (1l << 48) ) return false;
+    wide const A = a.v, B = b.v, H = h.v, S = A * A + B * B;
+    if( vf_hypot_small(a, b) ) return S <= (H + 2) * (H + 2);
+    return wide(399880009) * S <= wide(400000000) * (H * H); }
+// h is not too large: h - T <= 2 resp. <= 1.5e-4 T
+constexpr bool post_hypot_acc_hi(fixed_t a, fixed_t b, fixed_t h)
+  { if( h.v < 0 || h.v >= (1l << 48) ) return false;
+    wide const A = a.v, B = b.v, H = h.v, S = A * A + B * B;
+    if( vf_hypot_small(a, b) ) return H <= 2 || (H - 2) * (H - 2) <= S;
+    return wide(400000000) * (H * H) <= wide(400120009) * S; }
+constexpr bool post_hypot_acc(fixed_t a, fixed_t b, fixed_t h) { return post_hypot_acc_lo(a, b, h) && post_hypot_acc_hi(a, b, h); }
+// sqrt as hypot uses it, for the accuracy argument: within one ulp of the real root (floor root proved for abacus implies it: c12.sqrt.contract;
+// assumed for std::sqrt), plus the range facts of post_sqrt_hyp
+constexpr bool post_sqrt_hyp_1ulp(fixed_t x, fixed_t r) { return post_sqrt_hyp(x, r) && post_sqrt_1ulp(x, r); }
+// the floor-root contract proved for sqrt_abacus (C13) implies the contract the accuracy units use
+constexpr bool pre_c14_sqrtc(fixed_t x, fixed_t r) { return pre_sqrt_hyp(x) && post_sqrt(x, r); }
+constexpr bool lem_c14_sqrt_contract(fixed_t x, fixed_t r) { return post_sqrt_hyp_1ulp(x, r); }
 // cut-point lemma: the five calls reach the point after operand normalisation with the same (uhi, ulo); the ghost
 // observations are compared in the lemma's contract (spec/bind.py)
 inline bool lem_c14_cut(fixed_t a, fixed_t b) { (void)hypot(a, b); (void)hypot(b, a); (void)hypot(abs(a), abs(b)); (void)hypot(-a, b); (void)hypot(a, -b); return true; }
